@@ -295,3 +295,33 @@ func VH_C03_follower_apply() {
 	}
 	vReach("end")
 }
+
+//verif:check C03,C09 stubs=env,valuefile,abslog,snapfs reach=restored,restore-failed,end desc="stateMachine.onRestoreReq: the FSM loop's position (index, term, configuration) moves to the snapshot's only together with the state machine's contents: after a successful restore they are the snapshot label's, after a failed one (the user's Restore returns an error and keeps its state) they are unchanged, so that nothing is applied on top of a state it does not belong to" bounds="any applied position and snapshot label (64-bit); Restore succeeds or fails"
+func VH_C03_restore_position() {
+	r := vMkRaft(1)
+	vSymTermState(r)
+	fsm := &vFSM{updates: [][]byte{{1}}}
+	r.fsm.FSM = fsm
+	i0, t0 := vU64("fsm.index"), vU64("fsm.term")
+	r.fsm.index, r.fsm.term = i0, t0
+	c0 := vStableConfig("applied.cfg", 2, vU64("applied.cfg.index"), 1)
+	r.fsm.config = c0
+	si, st := vU64("snap.index"), vU64("snap.term")
+	vAssume(si >= 1 && st >= 1)
+	sc := vStableConfig("snap.cfg", 2, vU64("snap.cfg.index"), 1)
+	vPublishSnapshot(r, si, st, sc, 10)
+	if vBool("restore.fails") {
+		fsm.restoreErr = vIOError{"restore"}
+	}
+	err := r.fsm.onRestoreReq()
+	if err == nil {
+		vReach("restored")
+		vAssert(fsm.restored == 1 && len(fsm.updates) == 0, "RS-state-replaced")
+		vAssert(r.fsm.index == si && r.fsm.term == st && r.fsm.config.Index == sc.Index, "RS-position-is-the-snapshot-label")
+	} else {
+		vReach("restore-failed")
+		vAssert(fsm.restored == 0 && len(fsm.updates) == 1, "RS-failed-restore-keeps-the-state")
+		vAssert(r.fsm.index == i0 && r.fsm.term == t0 && r.fsm.config.Index == c0.Index, "RS-failed-restore-keeps-the-position")
+	}
+	vReach("end")
+}
